@@ -589,6 +589,34 @@ pub fn record_c04(a: &Args) -> usize {
             }
         }
     }
+    // every low type x every recognised code as the first byte x many lengths (the table is keyed on type, length and
+    // first byte: a frame that agrees with an entry in two of the three must still be unknown)
+    let codes = recognised_codes();
+    let lens: Vec<usize> = if thorough { (0..=255).collect() } else { (0..=40).chain([47, 48, 49, 63, 64, 65, 66, 80, 81, 96, 97, 112, 113, 127, 128, 129, 144, 145, 192, 193, 254, 255]).collect() };
+    for ty in 0..=7u8 {
+        for (_, code) in codes.iter().filter(|(_, d)| d.len() == 1) {
+            for &len in &lens {
+                if len == 0 {
+                    continue;
+                }
+                let mut d: Vec<u8> = (0..len).map(|i| (i * 29 + ty as usize) as u8).collect();
+                d[0] = code[0];
+                emit(&mut out, f2m_event(rng.r#gen(), ty, &d, len % 2 == 0));
+            }
+        }
+    }
+    // payloads that look like protocol data themselves: the ASCII of an encoded frame, a configuration block, a page header
+    for ty in [0u8, 1, 2, 4, 9] {
+        for inner_len in [0usize, 1, 2, 16, 60, 122] {
+            let inner = seed_encoding(rng.r#gen(), rng.r#gen(), &rand_bytes(&mut rng, inner_len), inner_len % 2 == 1);
+            if inner.len() <= 255 {
+                emit(&mut out, f2m_event(rng.r#gen(), ty, &inner, true));
+            }
+        }
+        emit(&mut out, f2m_event(rng.r#gen(), ty, &[0x04, 0x20, 0x00, 0x06, 0x07, 0x1E, 0x1E, 0x1E, 0x00, 0x08, 0, 0, 0, 0, 0, 0], false));
+        emit(&mut out, f2m_event(rng.r#gen(), ty, b":00000001FF", false));
+        emit(&mut out, f2m_event(rng.r#gen(), ty, b":0100030400F8\r\n", false));
+    }
     // random frames of any length
     let nr = if thorough { 30_000 } else { 1_500 };
     for _ in 0..nr {
@@ -662,6 +690,16 @@ pub fn record_c05(a: &Args) -> usize {
             }
         }
     }
+    // data chunks whose payload is itself the ASCII of an encoded frame (or looks like other protocol data)
+    for inner_len in [0usize, 1, 2, 16, 60, 122] {
+        for nl in [false, true] {
+            let inner = seed_encoding(rng.r#gen(), rng.r#gen(), &rand_bytes(&mut rng, inner_len), nl);
+            if inner.len() <= 255 {
+                emit(&mut out, Message::SendData(Offset(rng.r#gen()), Data::try_new(inner).unwrap()));
+            }
+        }
+    }
+    emit(&mut out, Message::SendData(Offset(0), Data::try_new(b":00000001FF".to_vec()).unwrap()));
     // the same trip through a byte stream: batches of messages written back to back with Frame::write and read again with
     // Frame::read (a 255-byte chunk followed by short messages, and so on)
     let mut batch: Vec<Message<'static>> = vec![];
